@@ -362,6 +362,8 @@ def c15(run):
     r10_args.check_none_default_tests(run, prog.analysed_functions())
     r10_args.check_none_belief(run, [f for f in prog.analysed_functions() if f.module.short not in ('base/animate', 'timing', 'stdlib/collections', 'base/graphics')])
     r10_args.check_getvector_contract(run)
+    r10_args.check_getunit_contract(run)
+    r4_predicates.check_isvector(run)
     # the arms of a form split (one vector / a list of vectors, one value / many) forward the same options to the same kernel
     for f in prog.analysed_functions():
         if f.module.short not in ('base/animate', 'timing', 'stdlib/collections', 'base/graphics'):
@@ -392,7 +394,7 @@ def c15(run):
                        'extraction functions scale by 180/pi exactly under unit==deg; order chains end in raise and '
                        'rpy2r/tr2rpy accept the same names. R3/R2: wrong arguments raise rather than yield an empty '
                        'object or None. Bitwise identity of results follows from normaliser dominance and is not observed.')
-    run.trust(*STATIC_TRUST, 'getvector/getmatrix/getunit are the trusted normaliser roots (their own bodies are covered by C16/C17 rules only)')
+    run.trust(*STATIC_TRUST, 'getmatrix/isscalar/ismatrix are trusted normaliser roots (getvector, getunit and isvector have their own contract rules R10g / R4)')
 
 
 CHECKS['C15'] = c15
@@ -504,6 +506,8 @@ def _scope_rules(run, pid, r1=True, r2=True, r9=True, generic=True):
             # the normaliser root every scope leans on: conversion dtype, default, length test before every value return
             run.extra['_getvector_done'] = True
             r10_args.check_getvector_contract(run)
+            r10_args.check_getunit_contract(run)
+            r4_predicates.check_isvector(run)
         for f in fs:
             if f.key not in seen:
                 r7_binary.check_duplicates(run, f)           # x - x, x == x, atan2(a, a), a paired loop variable that is never used
